@@ -298,14 +298,37 @@ pub fn compare_by_request(expected: &[Value], actual: &[Value], tol: f64) -> Vec
         let e = essence(r);
         eg.entry(e.request.clone()).or_default().push(e);
     }
+    // a value that is not a JSON object cannot be carried in "request" by the invariant-error path (it is
+    // displayed inside the error text instead): such responses are matched by their error text, and a
+    // missing request is only a violation when the same query run alone does carry it
+    let no_request_key = |r: &Value| format!("<no request> {}", r.get("error").map(|e| e.to_string()).unwrap_or_default());
+    let mut eg: BTreeMap<String, Vec<Essence>> = eg;
+    let mut expected_without_request: BTreeMap<String, usize> = BTreeMap::new();
+    for r in expected {
+        if r.get("request").is_none() {
+            *expected_without_request.entry(no_request_key(r)).or_insert(0) += 1;
+        }
+    }
+    if !expected_without_request.is_empty() {
+        eg.remove(&canon_blind(&Value::Null));
+    }
     let mut ag: BTreeMap<String, Vec<Essence>> = BTreeMap::new();
     for r in actual {
         if r.get("request").is_none() {
-            v.push(("no-request".to_string(), format!("response does not carry its request: {}", r)));
+            let k = no_request_key(r);
+            match expected_without_request.get_mut(&k) {
+                Some(n) if *n > 0 => *n -= 1,
+                _ => v.push(("no-request".to_string(), format!("response does not carry its request: {}", r))),
+            }
             continue;
         }
         let e = essence(r);
         ag.entry(e.request.clone()).or_default().push(e);
+    }
+    for (k, n) in &expected_without_request {
+        if *n > 0 {
+            v.push(("lost".into(), format!("{} response(s) missing: {}", n, k.chars().take(200).collect::<String>())));
+        }
     }
     for (k, es) in &eg {
         match ag.get(k) {
@@ -352,4 +375,129 @@ pub fn compare_by_request(expected: &[Value], actual: &[Value], tol: f64) -> Vec
         }
     }
     v
+}
+
+// ---------------------------------------------------------------------------
+// CSV reading that does not prescribe how a cell is escaped
+// ---------------------------------------------------------------------------
+
+/// one cell as found in the file: a JSON rendering (what the application writes today: strings in
+/// double quotes with backslash escapes, objects and arrays inline), an RFC 4180 quoted cell, or bare text
+#[derive(Debug, Clone, PartialEq)]
+pub enum Cell {
+    Json(Value),
+    Text(String),
+}
+
+/// split a CSV text into records of cells. A record ends at a line break outside quotes / JSON
+/// values. Returns the records and whether the text ended inside an unfinished record.
+pub fn parse_csv_records(text: &str) -> (Vec<Vec<Cell>>, bool) {
+    let b = text.as_bytes();
+    let mut recs: Vec<Vec<Cell>> = vec![];
+    let mut cur: Vec<Cell> = vec![];
+    let mut i = 0;
+    let at_delim = |j: usize| j >= b.len() || b[j] == b',' || b[j] == b'\n' || b[j] == b'\r';
+    let mut unfinished = false;
+    while i <= b.len() {
+        if i == b.len() {
+            if !cur.is_empty() {
+                unfinished = true;
+                recs.push(std::mem::take(&mut cur));
+            }
+            break;
+        }
+        // ---- one cell ----
+        let mut cell: Option<(Cell, usize)> = None;
+        if b[i] == b'"' || b[i] == b'{' || b[i] == b'[' {
+            let mut it = serde_json::Deserializer::from_str(&text[i..]).into_iter::<Value>();
+            if let Some(Ok(v)) = it.next() {
+                let end = i + it.byte_offset();
+                if at_delim(end) {
+                    cell = Some((Cell::Json(v), end));
+                }
+            }
+            if cell.is_none() && b[i] == b'"' {
+                // RFC 4180: quotes doubled inside, may contain commas and line breaks
+                let mut j = i + 1;
+                let mut out = String::new();
+                let mut closed = false;
+                while j < b.len() {
+                    if b[j] == b'"' {
+                        if j + 1 < b.len() && b[j + 1] == b'"' {
+                            out.push('"');
+                            j += 2;
+                            continue;
+                        }
+                        closed = true;
+                        j += 1;
+                        break;
+                    }
+                    let ch = text[j..].chars().next().unwrap();
+                    out.push(ch);
+                    j += ch.len_utf8();
+                }
+                if closed && at_delim(j) {
+                    cell = Some((Cell::Text(out), j));
+                }
+            }
+        }
+        let (c, end) = match cell {
+            Some(x) => x,
+            None => {
+                let mut j = i;
+                while j < b.len() && b[j] != b',' && b[j] != b'\n' && b[j] != b'\r' {
+                    j += 1;
+                }
+                (Cell::Text(text[i..j].to_string()), j)
+            }
+        };
+        cur.push(c);
+        i = end;
+        if i >= b.len() {
+            continue;
+        }
+        match b[i] {
+            b',' => {
+                i += 1;
+                if i == b.len() {
+                    cur.push(Cell::Text(String::new()));
+                }
+            }
+            b'\r' | b'\n' => {
+                if b[i] == b'\r' && i + 1 < b.len() && b[i + 1] == b'\n' {
+                    i += 1;
+                }
+                i += 1;
+                recs.push(std::mem::take(&mut cur));
+            }
+            _ => {}
+        }
+    }
+    (recs, unfinished)
+}
+
+/// does the cell hold this value? (any escaping of strings; empty or `null` for null; numbers within tolerance)
+pub fn cell_matches(expected: &Value, cell: &Cell, tol: f64) -> bool {
+    match (expected, cell) {
+        (e, Cell::Json(v)) => json_close(e, v, tol),
+        (Value::Null, Cell::Text(t)) => t.is_empty() || t == "null",
+        (Value::String(s), Cell::Text(t)) => s == t,
+        (e, Cell::Text(t)) => serde_json::from_str::<Value>(t).map_or(false, |v| json_close(e, &v, tol)),
+    }
+}
+
+/// the values a response must produce, in header order (None = the mapping cannot be applied: empty cell)
+pub fn expected_cells(cols: &[(String, Value)], resp: &Value) -> (Vec<Value>, bool) {
+    let mut any_err = false;
+    let cells = cols
+        .iter()
+        .map(|(_, m)| match apply_mapping(m, resp) {
+            Ok(v) => v,
+            Err(()) => {
+                any_err = true;
+                Value::Null
+            }
+        })
+        .collect();
+    (cells, any_err)
 }
